@@ -72,8 +72,21 @@ def o_push(a):
     # cumulative of (1 + m cos 2(φ − φ₀))/2π from −π: (φ + π)/2π + m [sin 2(φ − φ₀) − sin 2(−π − φ₀)]/4π
     F = lambda x: (x + math.pi) / (2 * math.pi) + m * (numpy.sin(2 * (x - a['pa'])) - math.sin(2 * (-math.pi - a['pa']))) / (4 * math.pi)
     dev = float(numpy.abs(h - numpy.diff(F(edges))).max())
-    ok = flow and inrange and abs(bq) < BIAS_MAX and abs(bu) < BIAS_MAX and dev < 1.5e-3 and 0. <= mu <= 1. and untouched and repeat
-    return ok, dict(data_flow_exact=flow, m=m, mu=mu, bias_q=bq, bias_u=bu, hist_dev=dev, in_range=inrange, input_degree_array_untouched=untouched, second_call_identical=repeat)
+    # closure through the package's own Stokes machinery, noise-free: the angles of the midpoint grid analysed with the responses of the same set
+    # give back the input degree and angle (modulo 180°) at every energy of the response band
+    closure = dict(pd=None, pa=None)
+    close_ok = True
+    if a.get('analysis') and float(a['pd']) > 0. and mu > 0.:
+        from ixpeobssim.evt.kislat2015 import xStokesAnalysis
+        from ixpeobssim.irf import load_arf
+        aeff = _IRF.setdefault(('arf', a['irf'], a['du']), load_arf(a['irf'], a['du']))
+        ana = xStokesAnalysis(2. * numpy.cos(2. * phi), 2. * numpy.sin(2. * phi), E.copy(), modf, aeff, 1000., acceptcorr=False)
+        row = ana.polarization_table(numpy.array([a['energy'] - 0.05, a['energy'] + 0.05]), degrees=False)
+        closure = dict(pd=float(row['PD'][0]), pa=float(row['PA'][0]), counts=float(row['COUNTS'][0]))
+        dpa = (closure['pa'] - a['pa'] + math.pi / 2) % math.pi - math.pi / 2
+        close_ok = abs(closure['pd'] - float(a['pd'])) < 2e-3 + 2 * BIAS_MAX / mu and (abs(dpa) < 2e-3 + BIAS_MAX / m) and closure['counts'] == n
+    ok = flow and inrange and abs(bq) < BIAS_MAX and abs(bu) < BIAS_MAX and dev < 1.5e-3 and 0. <= mu <= 1. and untouched and repeat and close_ok
+    return ok, dict(analysis_closure=closure, data_flow_exact=flow, m=m, mu=mu, bias_q=bq, bias_u=bu, hist_dev=dev, in_range=inrange, input_degree_array_untouched=untouched, second_call_identical=repeat)
 
 
 def o_component(a):
@@ -168,11 +181,13 @@ def o_file(a):
         cfg = simdrive.config_path('toy_point_source.py')
         roi = import_roi(cfg)
         src = list(roi.values())[0]
-        simdrive.simulate(cfg, path, du_id=a['du'], seed=a['seed'], roi_model=roi, duration=a['duration'])
+        band = a.get('band')          # an energy window of the simulation other than the default: the closure must hold wherever the response is defined
+        simdrive.simulate(cfg, path, du_id=a['du'], seed=a['seed'], roi_model=roi, duration=a['duration'], **(dict(emin=band[0], emax=band[1]) if band else {}))
         with fits.open(path) as h:
             ev = h['EVENTS'].data
             phi, q, u = (numpy.array(ev[k], dtype=float) for k in ('PHI', 'Q', 'U'))
-        o = xpbin(**PARSER.parse_args([path, '--overwrite', 'True', '--algorithm', 'PCUBE', '--ebins', '1', '--irfname', 'ixpe:obssim20240101:v13']).__dict__)[0]
+        o = xpbin(**PARSER.parse_args([path, '--overwrite', 'True', '--algorithm', 'PCUBE', '--ebins', '1', '--irfname', 'ixpe:obssim20240101:v13'] + (
+            ['--mc', 'True', '--emin', repr(band[0]), '--emax', repr(band[1])] if band else [])).__dict__)[0]
         with fits.open(o) as h:
             r = h[1].data
             pd, pde, pa, pae = float(r['PD'][0]), float(r['PD_ERR'][0]), float(r['PA'][0]), float(r['PA_ERR'][0])
@@ -181,7 +196,7 @@ def o_file(a):
         bad.append('Q, U columns are not 2cos 2PHI, 2 sin 2PHI')
     if phi.min() < -math.pi - 1e-6 or phi.max() > math.pi + 1e-6:
         bad.append('PHI outside [−π, π]')
-    E = numpy.array([4.])
+    E = numpy.array([4. if not band else 0.5 * (band[0] + band[1])])
     pd0 = float(numpy.atleast_1d(src.polarization_degree(E, 0., 0., 0.))[0])
     pa0 = math.degrees(float(numpy.atleast_1d(src.polarization_angle(E, 0., 0., 0.))[0]))
     if abs(pd - pd0) > 6.5 * pde:
@@ -270,6 +285,9 @@ def explore(chk, budget=1):
             a.update(pd=1, pd_int=True)             # an integer-typed degree reaching the sampler
         if i % 6 == 3:
             a.update(pd=1, pd_scalar=True)
+        if i % 3 == 1:
+            # analysed with the package's own Stokes machinery; the low end of the band, where the modulation factor is a few per cent, included
+            a.update(analysis=True, energy=float(g.choice([g.uniform(1.05, 1.6), g.uniform(1.6, 11.5)])))
         run_oracle(chk, 'push', a, nontrivial=pd not in (0.,))
     for kind in ('const', 'const_int', 'energy', 'time', 'clip', 'step_time', 'zero'):
         run_oracle(chk, 'component', dict(kind=kind, irf=names[0], du=int(g.integers(1, 4)), pd=float(g.uniform(0.2, 0.9)), pa=float(g.uniform(-1.5, 1.5)), n=200000,
